@@ -7,6 +7,10 @@
    ECIES: `repair_archive` runs Archive.load_config in the oracle mode of RunC01.v (candidates
    = X25519 shared secrets computed by the harness); `repair_archive_kn` takes the session key
    and nonce as given (the unwrap is compared by job c01-header) — cheaper, used for sweeps. *)
+From MLA Require Import Limit.
+From MLAGen Require Src.
+(* executable entry points: the production value of BINCODE_MAX_DESERIALIZE (the same in both flavours), file-local *)
+#[local] Instance RUN_LIMIT : Limit := MLAGen.Src.BINCODE_MAX_DESERIALIZE_prod.
 From MLA Require Import Base Stream Inst InstGcm EncLayer Repair Writer Format Archive HeaderStream Run RunC01.
 From MLA.Concrete Require Aes.
 From MLAGen Require Src.
